@@ -12,6 +12,15 @@ def enc(r, a, b):
     return 1000.0 * r + 31.0 * lo + hi + 0.5
 
 
+def enc2(r, a, b):
+    """integer-valued variant (odd integers) for stacks held in an integer dtype"""
+    return 2 * enc(r, a, b)
+
+
+def value_fn_of(spec):
+    return enc2 if spec.get('dtype') == 'int64' else enc
+
+
 def dec(v):
     """inverse of enc -> (r, lo, hi) or None"""
     if v is None or not np.isfinite(v):
@@ -104,7 +113,7 @@ def gen_grouping(rng, n, kinds=('unique', 'groups', 'allsame'), allow_allsame=Tr
 
 
 def gen_rdms_spec(rng, n_rdm=(1, 6), n_cond=(3, 9), nan_prob=0.25, groupings=True,
-                  allow_allsame=True, kinds=('unique', 'groups', 'allsame')):
+                  allow_allsame=True, kinds=('unique', 'groups', 'allsame'), dtypes=False):
     nr = rng.randint(*n_rdm)
     nc = rng.randint(*n_cond)
     rdm_uids = rng.sample(range(1, 90), nr)
@@ -122,7 +131,9 @@ def gen_rdms_spec(rng, n_rdm=(1, 6), n_cond=(3, 9), nan_prob=0.25, groupings=Tru
     if rng.chance(0.45):
         # a strictly increasing numeric descriptor held as ndarray (positions, onsets ...): unique and sorted
         spec['pat_desc']['pos'] = {'values': [10 * (i + 1) + 5 for i in range(nc)], 'container': 'array', 'kind': 'unique', 'type': 'int'}
-    if rng.chance(nan_prob) and nc >= 4:
+    if dtypes:
+        spec['dtype'] = rng.pick(['float64', 'float64', 'float64', 'int64', 'float32'])
+    if rng.chance(nan_prob) and nc >= 4 and spec.get('dtype') != 'int64':
         for _ in range(rng.randint(1, 2)):
             i, j = sorted(rng.sample(range(nc), 2))
             r = rng.randrange(nr)
@@ -135,8 +146,9 @@ def _container(d):
     return np.array(v) if d.get('container') == 'array' else list(v)
 
 
-def build_rdms(spec, value_fn=enc, all_rdm_nan=False):
+def build_rdms(spec, value_fn=None, all_rdm_nan=False):
     """Build the library object from a spec (imports rsatoolbox lazily)."""
+    value_fn = value_fn or value_fn_of(spec)
     from rsatoolbox.rdm import RDMs
     ru, cu = spec['rdm_uids'], spec['cond_uids']
     nr, nc = len(ru), len(cu)
@@ -157,6 +169,9 @@ def build_rdms(spec, value_fn=enc, all_rdm_nan=False):
     pat_desc = {'uid': list(cu)}
     for k, d in spec.get('pat_desc', {}).items():
         pat_desc[k] = _container(d)
+    if spec.get('dtype') in ('int64', 'float32'):
+        # rank-like integer stacks / single precision (all encoded values are exact in both); integer stacks carry no NaN
+        vecs, mats = vecs.astype(spec['dtype']), mats.astype(spec['dtype'])
     if spec.get('order') == 'F':
         vecs = np.asfortranarray(vecs)       # a non-C-contiguous input array
     elif spec.get('order') == 'S':
